@@ -14,6 +14,9 @@ structure Laws (o : Obj σ α) : Prop where
   nonneg : ∀ a x y, o.better (o.combine a (o.motionCost x y)) a = false
   /-- `infiniteCost()` is not better than anything -/
   inf_worst : ∀ a, o.better o.infinite a = false
+  /-- an objective that says `isSymmetric()` has a symmetric motion cost (the rewiring then reuses the cached
+  reverse cost; an objective that says no gets it recomputed) -/
+  sym : o.symmetric = true → ∀ x y, o.motionCost x y = o.motionCost y x
 
 /-- the incumbent bookkeeping agrees: no best goal motion ⇒ `bestCost_` is still the infinite cost. -/
 def BestInv (o : Obj σ α) (s : St σ α δ) : Prop := s.bestGoal = none → s.bestCost = o.infinite
